@@ -11,6 +11,7 @@
      minimiser n f lb ub l1 xs  xs feasible and F(xs) <= F(x) for every feasible x,  F = f + Σ λ_i |x_i|            *)
 From Coq Require Import Reals List ZArith Lra.
 From Alpaqa Require Import Num NumR Vec Prox ProxProofs ProxVec Fista FistaGen FistaK FistaProofs FistaGenProofs.
+From Alpaqa Require Import SolverStatus SolverKernels FistaLoop FistaLoopProofs FistaLoopRate.
 Import ListNotations.
 Local Open Scope R_scope.
 
@@ -101,3 +102,129 @@ Example C08_nonvacuous :
   exists s0 s' o nbt, init genK ex_f (fun x => x) ex_P [3; -2] = Some s0 /\
                       step genK ex_f (fun x => x) ex_lb ex_ub [/ 2] ex_P 0 s0 = Some (s', o, nbt).
 Proof. exact (conj ex_prob_ok (conj ex_smooth_convex (conj ex_params_ok (conj ex_minimiser ex_runs)))). Qed.
+
+(* ====================================================================== C08 ON THE WHOLE-RUN MODEL ======================
+   (9)-(15): the rate as a theorem about FistaLoop.fista = the WHOLE of FISTASolver::operator() (all Lipschitz modes, l1, m >= 0, stop
+   chain, exit), the model that the whole-run correspondence Corr_FISTA / lib/vf/props/FISTA.py ties to the real solver run by run.
+   Route: the potential argument redone on the progress-callback records of FistaLoop (invariants rec_ok / chain of FistaLoopProofs),
+   reusing FistaProofs' key inequality and potential algebra; Fista.v's skeleton is not involved.
+   Hypotheses:  prob_ok / smooth_convex / minimiser as above (ψ convex with the descent lemma, F = ψ + Σ λ_i|x_i| over the box);
+     coherent n ψ ∇ψ psi_grad psi_yhat grad_psi   the three problem oracles evaluate ψ, ∇ψ on n-vectors whatever the event counters are
+                                                   (ŷ and eval_grad_L arbitrary); for m > 0, ψ is the augmented Lagrangian for the fixed y, Σ;
+     fparams_ok P Lf                               qub tolerance factor 0, 0 < Lγ_factor <= 1, Lγ_factor·Lf <= L_max, 0 < L_min <= L_max.
+   NOTHING is assumed about stop_crit, max_iter, tolerance, max_no_progress, the stop flag, the clock, L_0, ε, δ, y, Σ, err_z, the fuels. *)
+Section C08_FistaLoop.
+  Variable psi_grad : fcounters -> list R -> R * list R.
+  Variable psi_yhat : fcounters -> list R -> R * list R.
+  Variable grad_L : fcounters -> list R -> list R -> list R.
+  Variable grad_psi : fcounters -> list R -> list R.
+  Variables (lb ub : list (option R)) (l1 : list R).
+  Variable stop_req : fcounters -> bool.
+  Variable time_up : fcounters -> bool.
+  Variable P : fparams (T:=R).
+  Variables (x_in y_in Σ errz_in : list R).
+  Variable bt_fuel : nat.
+  Variables (n : nat) (f : list R -> R) (gradf : list R -> list R) (Lf : R) (xs : list R).
+  Hypothesis Hok : prob_ok n lb ub l1.
+  Hypothesis Hf : smooth_convex n f gradf Lf.
+  Hypothesis Hco : coherent n f gradf psi_grad psi_yhat grad_psi.
+  Hypothesis HP : fparams_ok P Lf.
+  Hypothesis Hxs : minimiser n f lb ub l1 xs.
+  Hypothesis Hx0 : length x_in = n.
+
+  Notation run := (fista psi_grad psi_yhat grad_L grad_psi lb ub l1 stop_req time_up P x_in y_in Σ errz_in bt_fuel).
+  Notation Reachable := (reachable psi_grad psi_yhat grad_L grad_psi lb ub l1 stop_req time_up P x_in y_in Σ errz_in bt_fuel).
+  Notation gap r := (F n f l1 (jxh (fr_it r)) - F n f l1 xs).
+  Notation R2 := (dist2 n x_in xs).
+  Notation ARGS T := (T psi_grad psi_yhat grad_L grad_psi lb ub l1 stop_req time_up P x_in y_in Σ errz_in bt_fuel n f gradf Lf xs Hok Hf Hco HP Hxs Hx0) (only parsing).
+
+  (* (9) THE RATE on whole runs, fixed and backtracked step size: EVERY progress-callback record (k, x̂_k, γ_k) of EVERY completed run *)
+  Theorem C08_fistaloop_rate : forall fuel o, run fuel = FDone o -> fp_noaccel P = false ->
+    Forall (fun r => 0 < jgam (fr_it r) /\ 0 <= gap r /\ feas n lb ub (jxh (fr_it r)) /\
+                     gap r <= 2 * R2 / (jgam (fr_it r) * ((INR (fr_k r) + 2) * (INR (fr_k r) + 2))) /\
+                     gap r <= 2 * R2 / (jgam (fr_it r) * ((INR (fr_k r) + 1) * (INR (fr_k r) + 1)))) (fo_log o).
+  Proof. exact (ARGS fistaloop_rate). Qed.
+
+  (* (10) ... and the records written so far at every loop head of every run, completed or not *)
+  Theorem C08_fistaloop_rate_every_loop_head : forall s, Reachable s -> fp_noaccel P = false ->
+    Forall (fun r => 0 < jgam (fr_it r) /\ 0 <= gap r /\ feas n lb ub (jxh (fr_it r)) /\
+                     gap r <= 2 * R2 / (jgam (fr_it r) * ((INR (fr_k r) + 2) * (INR (fr_k r) + 2))) /\
+                     gap r <= 2 * R2 / (jgam (fr_it r) * ((INR (fr_k r) + 1) * (INR (fr_k r) + 1)))) (fs_log s).
+  Proof. exact (ARGS fistaloop_rate_reachable). Qed.
+
+  (* (11) fixed-step mode (L_min = L_max): γ_k = Lγ_factor / L_max at every record, closed-form bound *)
+  Theorem C08_fistaloop_rate_fixed_step : forall fuel o, run fuel = FDone o -> fp_noaccel P = false -> ffixed P = true ->
+    Forall (fun r => jgam (fr_it r) = fp_Lgamma P / fp_Lmax P /\ 0 <= gap r /\
+                     gap r <= 2 * fp_Lmax P * R2 / (fp_Lgamma P * ((INR (fr_k r) + 2) * (INR (fr_k r) + 2))) /\
+                     gap r <= 2 * fp_Lmax P * R2 / (fp_Lgamma P * ((INR (fr_k r) + 1) * (INR (fr_k r) + 1)))) (fo_log o).
+  Proof. exact (ARGS fistaloop_rate_fixed_step). Qed.
+
+  (* (12) disable_acceleration: O(1/k) at every record, x_{k+1} = x̂_k and F(x̂_{k+1}) <= F(x̂_k) for consecutive records *)
+  Theorem C08_fistaloop_noaccel_monotone_and_rate : forall fuel o, run fuel = FDone o -> fp_noaccel P = true ->
+    Forall (fun r => 0 < jgam (fr_it r) /\ 0 <= gap r /\ feas n lb ub (jxh (fr_it r)) /\
+                     gap r <= R2 / (2 * jgam (fr_it r) * (INR (fr_k r) + 1))) (fo_log o) /\
+    forall pre r r' post, fo_log o = pre ++ r :: r' :: post ->
+      jx (fr_it r') = jxh (fr_it r) /\ F n f l1 (jxh (fr_it r')) <= F n f l1 (jxh (fr_it r)).
+  Proof. exact (ARGS fistaloop_noaccel). Qed.
+
+  (* (13) iteration count (liveness flavour, feeds C02): a record with k + 1 >= N >= sqrt(2‖x0−x*‖²/(γmin η)) whose step size is >= γmin
+     has F(x̂_k) − Fmin <= η — the number of iterations until the gap is <= η is at most ⌈sqrt(2‖x0−x*‖²/(γmin η))⌉;
+     in fixed-step mode γmin = Lγ_factor / L_max needs no hypothesis.  (γ is non-increasing along a run: FISTA_gamma_nonincreasing.)
+     NOT proved: a bound of one of the stop criteria's ε by the function gap (none of the ten criteria is cheaply bounded by it), so
+     this does not by itself give `Converged within N iterations`. *)
+  Theorem C08_fistaloop_iterations : forall fuel o, run fuel = FDone o -> fp_noaccel P = false ->
+    forall (γmin η : R) (N : nat), 0 < γmin -> 0 < η -> sqrt (2 * R2 / (γmin * η)) <= INR N ->
+    Forall (fun r => γmin <= jgam (fr_it r) -> (N <= fr_k r + 1)%nat -> gap r <= η) (fo_log o).
+  Proof. exact (ARGS fistaloop_iterations). Qed.
+  Theorem C08_fistaloop_iterations_fixed_step : forall fuel o, run fuel = FDone o -> fp_noaccel P = false -> ffixed P = true ->
+    forall (η : R) (N : nat), 0 < η -> sqrt (2 * fp_Lmax P * R2 / (fp_Lgamma P * η)) <= INR N ->
+    Forall (fun r => (N <= fr_k r + 1)%nat -> gap r <= η) (fo_log o).
+  Proof. exact (ARGS fistaloop_iterations_fixed_step). Qed.
+
+  (* (14) the F(x̂_k) of (9)-(13) is what the progress callback shows: hx̂ = h(x̂_k), and ψx̂ = ψ(x̂_k) whenever ψ(x̂) is evaluated inside
+     the loop (backtracking mode, or a criterion that needs ∇ψ(x̂)) *)
+  Theorem C08_fistaloop_reported_values : forall fuel o, run fuel = FDone o ->
+    Forall (fun r => jh (fr_it r) = hval n l1 (jxh (fr_it r)) /\
+                     (ffixed P = false \/ fneed P = true ->
+                      jpsih (fr_it r) = f (jxh (fr_it r)) /\ jpsih (fr_it r) + jh (fr_it r) = F n f l1 (jxh (fr_it r)))) (fo_log o).
+  Proof. exact (ARGS fistaloop_reported). Qed.
+  (* (15) a-priori step-size bound with backtracking: L is doubled only when the quadratic upper bound is violated, which forces L < Lf
+     (descent lemma), so at EVERY record L_k <= max(L_init, 2 Lf) and γ_k >= Lγ_factor / max(L_init, 2 Lf)  (any mode, any acceleration flag);
+     hence the iteration count of (13) with NO hypothesis on the step sizes of the run *)
+  Theorem C08_fistaloop_stepsize_lower_bound : forall fuel o, run fuel = FDone o ->
+    Forall (fun r => jL (fr_it r) <= Rmax (L_init psi_grad grad_psi P x_in) (2 * Lf) /\
+                     fp_Lgamma P / Rmax (L_init psi_grad grad_psi P x_in) (2 * Lf) <= jgam (fr_it r)) (fo_log o).
+  Proof. exact (ARGS fistaloop_L_bounded). Qed.
+  Theorem C08_fistaloop_iterations_apriori : forall fuel o, run fuel = FDone o -> fp_noaccel P = false ->
+    forall (η : R) (N : nat), 0 < η ->
+    sqrt (2 * R2 / (fp_Lgamma P / Rmax (L_init psi_grad grad_psi P x_in) (2 * Lf) * η)) <= INR N ->
+    Forall (fun r => (N <= fr_k r + 1)%nat -> gap r <= η) (fo_log o).
+  Proof. exact (ARGS fistaloop_iterations_apriori). Qed.
+End C08_FistaLoop.
+Print Assumptions C08_fistaloop_rate.
+Print Assumptions C08_fistaloop_rate_every_loop_head.
+Print Assumptions C08_fistaloop_rate_fixed_step.
+Print Assumptions C08_fistaloop_noaccel_monotone_and_rate.
+Print Assumptions C08_fistaloop_iterations.
+Print Assumptions C08_fistaloop_iterations_fixed_step.
+Print Assumptions C08_fistaloop_reported_values.
+Print Assumptions C08_fistaloop_stepsize_lower_bound.
+Print Assumptions C08_fistaloop_iterations_apriori.
+
+(* non-vacuity of (9)-(15):
+   (a) m = 0, fixed step: the instance of C08_nonvacuous (box [-1,1] x R, l1 weight ½) — all hypotheses hold and, for every max_iter,
+       the run completes with a non-empty log;
+   (b) m = 1, backtracking from L_0 = ½ < Lf = 2, criterion ApproxKKT: ψ(x) = ½x² + ½max(x−1,0)², the augmented Lagrangian of
+       min ½x² s.t. x <= 1 at y = 0, Σ = 1, with ŷ(x) = max(x−1,0) *)
+Example C08_fistaloop_nonvacuous_m0_fixed_step : forall mi,
+  prob_ok 2 ex_lb ex_ub [/ 2] /\ smooth_convex 2 ex_f (fun x => x) 1 /\ coherent 2 ex_f (fun x => x) exl_pg exl_py exl_gp /\
+  fparams_ok (exl_P mi) 1 /\ minimiser 2 ex_f ex_lb ex_ub [/ 2] [0; 0] /\ length [3; -2] = 2%nat /\
+  fp_noaccel (exl_P mi) = false /\ ffixed (exl_P mi) = true /\
+  exists o, exl_run mi = FDone o /\ fo_log o <> [].
+Proof. exact exl_nonvacuous. Qed.
+Example C08_fistaloop_nonvacuous_m1_backtracking : forall mi,
+  prob_ok 1 [None] [None] [] /\ smooth_convex 1 em_f em_g 2 /\ coherent 1 em_f em_g em_pg em_py em_gp /\
+  fparams_ok (em_P mi) 2 /\ minimiser 1 em_f [None] [None] [] [0] /\ length [3] = 1%nat /\
+  fp_noaccel (em_P mi) = false /\ ffixed (em_P mi) = false /\
+  exists o, em_run mi = FDone o /\ fo_log o <> [].
+Proof. exact em_nonvacuous. Qed.
